@@ -8,7 +8,7 @@ class C09(Spec):
     required_theorems = (
         "C09.pad_order",
         "C09.getV_correct_partial", "C09.getV_correct_full_false", "C09.getV_correct_sepfree_false",
-        "C09.delTop_restores", "C09.delTop_restores_state", "C09.applyAdd_wf", "C09.fresh_of_below",
+        "C09.delTop_restores", "C09.delTop_restores_state", "C09.applyAdd_wf", "C09.fresh_of_below", "C09.history_wf",
         "C09.trash_keeps_newest_partial", "C09.trash_keeps_newest_full_false",
     )
     partial = ("C09.getV_correct_partial", "C09.trash_keeps_newest_partial")
